@@ -4,9 +4,10 @@ C06 — what the hand-written model `Golib/Model/C06Replace.lean` (and, below it
 `algz/trie.go`, re-extracted by go/ast on every run into `Golib/Gen/FactsC06.lean`
 (`go/props/c06/facts.go`: targeted statements, rendered by go/printer and
 whitespace-normalised, so reformatting, comments and the order of the functions are not
-noticed).  A revert of F4 (no step back after a merge in `mergeScopes`), of F11, or a
-single-token change of the overlap test / hull updates / deletion / slices of the
-re-assembly loops makes this file fail to build, independently of the random search.
+noticed).  A revert of F11 or a single-token change of the slices of the re-assembly loops makes
+this file fail to build, independently of the random search.  `mergeScopes` itself (F4, overlap
+test, hull updates, deletion) is since wave 9 tied by the regenerated translation
+(`Golib/Proof/C06Trans.lean`, `c06_trans_mergeScopes`), not by its text.
 -/
 import Golib.Gen.FactsC06
 import Golib.Model.C06Replace
@@ -16,33 +17,12 @@ open Golib.C05
 
 /-- Every extracted source fact equals the literal the model was written against; the last
 conjuncts say (by unfolding) that the model's `mergeScopes` / `replaceWithMask` / `replace`
-are the `…With` versions instantiated with the extracted `stepBack` flag. -/
+are the `…With` versions at `stepBack = true`. -/
 def SourceFacts : Prop :=
     Golib.Gen.C06.extractorOK = true ∧
-    -- mergeScopes: first statement
-    Golib.Gen.C06.mergePrologue = "scopes := *sp" ∧
-    -- mergeScopes: last statement
-    Golib.Gen.C06.mergeEpilogue = "*sp = scopes" ∧
-    -- mergeScopes: loop header `init; cond; post` (no post: i moves in the body)
-    Golib.Gen.C06.mergeLoop = "i := 0; i < len(scopes)-1; " ∧
-    -- mergeScopes: the overlap test (strict)
-    Golib.Gen.C06.mergeOverlapCond = "scopes[i].stop > scopes[i+1].start" ∧
-    -- mergeScopes: the no-overlap branch
-    Golib.Gen.C06.mergeElse = ["i++"] ∧
-    -- mergeScopes: condition of the first hull update
-    Golib.Gen.C06.hullStopCond = "scopes[i].stop < scopes[i+1].stop" ∧
-    -- mergeScopes: the first hull update
-    Golib.Gen.C06.hullStopThen = ["scopes[i].stop = scopes[i+1].stop"] ∧
-    -- mergeScopes: condition of the second hull update
-    Golib.Gen.C06.hullStartCond = "scopes[i].start > scopes[i+1].start" ∧
-    -- mergeScopes: the second hull update
-    Golib.Gen.C06.hullStartThen = ["scopes[i].start = scopes[i+1].start"] ∧
-    -- mergeScopes: the deletion of scopes[i+1]
-    Golib.Gen.C06.mergeDelete = "scopes = append(scopes[:i+1], scopes[i+2:]...)" ∧
-    -- mergeScopes: the statements after the deletion inside the overlap branch (F4: step back)
-    Golib.Gen.C06.mergeAfterDelete = ["if i > 0 { i-- }"] ∧
-    -- mergeScopes: the statement right after the deletion is `if i > 0 { i-- }` and nothing follows it (model: `mergeLoop true`)
-    Golib.Gen.C06.stepBack = true ∧
+    -- mergeScopes: since wave 9 its statements are no longer compared as TEXT: the function is translated from the
+    -- tree on every run (Golib/Gen/TransC06.lean) and tied to the model by `c06_trans_mergeScopes` (a revert of F4 or a
+    -- changed comparison breaks that theorem; a renamed local or `i += 1` does not)
     -- *Trie.Replace: statements up to the merge (declare, find, THEN mergeScopes)
     Golib.Gen.C06.head_repl = ["var scopes []scope", "t.find(text, &scopes)", "t.mergeScopes(&scopes)"] ∧
     -- *Trie.Replace: the declaration right before the loop
@@ -113,11 +93,12 @@ def SourceFacts : Prop :=
     Golib.Gen.C06.findStepCond = "idx >= 0" ∧
     -- find: first two statements of that branch
     Golib.Gen.C06.findStepHead = ["node = node.children[idx].node", "tempNode := node"] ∧
-    -- model: the repaired functions are the `stepBack`-parametrised ones at the extracted flag
-    (∀ scopes : List Scope, mergeScopes scopes = mergeScopesWith Golib.Gen.C06.stepBack scopes) ∧
+    -- model: the repaired functions are the `stepBack`-parametrised ones at `true` (the flag of `mergeScopes` itself is
+    -- no longer a text fact: `c06_trans_mergeScopes` ties the regenerated function to `mergeScopesWith true`)
+    (∀ scopes : List Scope, mergeScopes scopes = mergeScopesWith true scopes) ∧
     (∀ (t : Trie) (text : List Nat) (mask : Int),
-      replaceWithMask t text mask = replaceWithMaskWith Golib.Gen.C06.stepBack t text mask) ∧
-    (∀ (t : Trie) (text repl : List Nat), replace t text repl = replaceWith Golib.Gen.C06.stepBack t text repl)
+      replaceWithMask t text mask = replaceWithMaskWith true t text mask) ∧
+    (∀ (t : Trie) (text repl : List Nat), replace t text repl = replaceWith true t text repl)
 
 theorem c06_facts_holds : SourceFacts := by
   unfold SourceFacts
